@@ -90,6 +90,9 @@ def specs(draw, tier):
         spec["a"] = gen.r6(10 ** draw(st.floats(-1, 1, **finite)))
         spec["b"] = gen.r6(draw(st.floats(-3, 3, **finite)))
     spec["num_processes"] = 1
+    # an earlier analysis in the same process with other options (a quick preview, other intensity options, another image)
+    # must not influence the judged one
+    spec["warmup"] = draw(st.sampled_from([None, None, None, "loose-tolerance", "tight-tolerance+params", "other-levels", "other-image"]))
     return spec
 
 
@@ -116,7 +119,7 @@ class C05(Property):
         "outside the box on periodic axes, away from non-periodic walls), centred on polar/spherical grids and on-axis on cylindrical "
         "grids (both periodic_z); emulsions of 2-4 droplets separated by > 10 widths (1-D/2-D); every threshold rule (a numeric "
         "threshold is mapped with the intensities); intensity options standard / affine with supplied levels / supplied + fitted / "
-        "None + fitted. locate_droplets(refine=True) must return one droplet per original with position error <= 1e-4 x max "
+        "None + fitted; in four cases of seven an unjudged earlier analysis with other options (loose / tight tolerance with solver parameters, other intensity options, another image) precedes the judged call in the same process. locate_droplets(refine=True) must return one droplet per original with position error <= 1e-4 x max "
         "spacing (minimal-image metric) and relative radius and width errors <= 1e-4. Non-trivial = droplet straddles a periodic "
         "boundary, anisotropy >= 1.2, non-default threshold, non-standard intensities, >= 2 droplets or a symmetric grid; distinct = "
         "distinct spec hash."
@@ -157,6 +160,20 @@ class C05(Property):
             rargs.update(vmin=None, vmax=None)
         if opt.endswith("+fit"):
             rargs["adjust_values"] = True
+        warm = spec.get("warmup")
+        if warm:
+            ctx.cls(f"warmup:{warm}")
+            try:
+                if warm == "loose-tolerance":
+                    locate_droplets(field, threshold=thr, refine=True, refine_args={**rargs, "tolerance": 1e-2})
+                elif warm == "tight-tolerance+params":
+                    locate_droplets(field, threshold=thr, refine=True, refine_args={**rargs, "tolerance": 1e-12, "least_squares_params": {"max_nfev": 3}})
+                elif warm == "other-levels":
+                    locate_droplets(field, threshold=thr, refine=True, refine_args={"vmin": b - 0.3 * a, "vmax": b + 1.4 * a, "adjust_values": True})
+                else:
+                    locate_droplets(ScalarField(grid, 2.5 * np.asarray(f.data, float)[tuple(slice(None, None, -1) for _ in range(grid.num_axes))] - 1.0), threshold="auto", refine=True)
+            except Exception:  # noqa: BLE001 - the preview is not judged (C09 judges robustness); only its after-effects are
+                ctx.cls("warmup-raised")
         res = locate_droplets(field, threshold=thr, refine=True, refine_args=rargs)
         dxs = np.asarray(grid.discretization, float)
         dmax = float(dxs.max())
